@@ -5,3 +5,4 @@ import MudModel.Hop
 import MudModel.Hopping
 import MudModel.Verlet
 import MudModel.Quadrature
+import MudModel.Batch
